@@ -987,3 +987,22 @@ func (m *Model) Mark(a Addr) Mark { return m.C[a.C].Marks[a.I] }
 
 // Children returns the IDs removed together with parent a (see Put of a tombstone / MarkGarbage).
 func (m *Model) Children(a Addr) []int { return m.C[a.C].children(a.I, 0) }
+
+// ParentOf returns the resolved parent of a stored object (-1 none).
+func (m *Model) ParentOf(a Addr) int {
+	if !m.C[a.C].Exists {
+		return -1
+	}
+	return m.C[a.C].parentOf(a.I)
+}
+
+// Stored reports whether a is stored (indexed), physically or as a parent header.
+func (m *Model) Stored(a Addr) bool { return m.C[a.C].Exists && m.C[a.C].Objs[a.I] != nil }
+
+// Get returns the stored record of a (nil if none).
+func (m *Model) Get(a Addr) *Obj {
+	if !m.C[a.C].Exists {
+		return nil
+	}
+	return m.C[a.C].Objs[a.I]
+}
